@@ -113,4 +113,4 @@ pub enum InformationContentKind {
 
 #[cfg(kani)]
 #[path = "/verif/kani/information_content.rs"]
-mod verif_kani;
+pub(crate) mod verif_kani;
